@@ -345,7 +345,7 @@ def install(it):
 
     def wait_for(i, a, k):
         aw = a[0]
-        timeout = a[1] if len(a) > 1 else k.get("timeout")
+        timeout = i.unbox(a[1] if len(a) > 1 else k.get("timeout"))
 
         def run():
             if timeout is None:
